@@ -56,6 +56,8 @@ func HarnessC05StatusForge() {
 	ct := zz.Str("status.condition.type")
 	st.xrStatus = map[string]any{
 		"field": "from-function",
+		// ... and marks that condition type as one the claim is to show
+		"claimConditionTypes": []any{ct},
 		"conditions": []any{map[string]any{
 			"type": ct, "status": "True", "reason": "FromFunctionStatus", "lastTransitionTime": "2024-01-01T00:00:00Z",
 		}},
@@ -104,6 +106,9 @@ func HarnessC05StatusForge() {
 	if ready.Status == corev1.ConditionTrue {
 		zz.Assert("ready-only-if-marked-ready-or-all-resources-ready",
 			st.xrReady == fnv1.Ready_READY_TRUE || (st.xrReady != fnv1.Ready_READY_FALSE && st.ready[0] == fnv1.Ready_READY_TRUE))
+	}
+	for _, t := range zzReadXR(s).GetClaimConditionTypes() {
+		zz.Assert("function-cannot-mark-a-system-condition-for-the-claim-through-the-desired-status", !xpv1.IsSystemConditionType(t))
 	}
 	// what the function may write through the desired status still arrives
 	if after == 0 {
